@@ -1,8 +1,9 @@
 /-  `ottomodel_c01` — reads C01 requests on stdin, one reply line per request.  Core-only imports. -/
 import OttoVerif.Base.Proto
 import OttoVerif.C01.Driver
+import OttoVerif.C01.FnDriver
 open OttoVerif
 
 def main (_args : List String) : IO UInt32 := do
-  Proto.loop (← IO.getStdin) (← IO.getStdout) C01.Driver.handle
+  Proto.loop (← IO.getStdin) (← IO.getStdout) (fun ws => match C01.FnDriver.handle ws with | some r => r | none => C01.Driver.handle ws)
   return 0
